@@ -65,6 +65,11 @@ def pair_labels(rng, kind, pattern):
         conv = {'i': int, 'f': float}
         la = [conv[kind](x) for x in la]
         lb = [conv[k2](x) for x in lb]
+        # the float side also carries fractional labels (so that a cast of the union to int would lose them)
+        if kind == 'f':
+            la = [x + 0.5 if rng.random() < 0.4 else x for x in la]
+        else:
+            lb = [x + 0.5 if rng.random() < 0.4 else x for x in lb]
     return (la, kind, oa), (lb, k2, ob)
 
 
